@@ -50,6 +50,8 @@ class Tokenizer:
                 tok = self.consume_with_macro_params()
             elif self._call_macro:
                 tok = self.consume_macro_params()
+            elif self._proc_macro and not self._stack:
+                tok = self.consume_proc_macro_params()
             elif self._stack:
                 tok = self._stack.pop()
             else:
@@ -125,6 +127,36 @@ class Tokenizer:
             if comma:  # blank text before a comma is an empty argument too; dropping it would shift the following ones
                 raise self.syntax_error("empty macro argument", tok)
             return TokenInfo(Token.WS, string, start, end, line)
+        return TokenInfo(Token.MACRO_PARAM, string, start, end, line)
+
+    def consume_proc_macro_params(self) -> TokenInfo:
+        """The raw text of a subprocess macro: everything up to the bracket that closes the subprocess form."""
+        depth: list[str] = []
+        string = ""
+        start = end = self._tokens[-1].end
+        last: TokenInfo | None = None
+        line = self._tokens[-1].line
+        while True:
+            tok = next(self._tokengen)
+            if tok.type in {Token.ENDMARKER, Token.NEWLINE}:
+                raise self.syntax_error("unexpected end of a subprocess macro", tok)
+            if tok.type == Token.OP and tok.string[-1] in "([{":
+                depth.append(tok.string[-1])
+            elif tok.type == Token.OP and (opener := self._end_parens.get(tok.string)):
+                if depth and depth[-1] == opener:
+                    depth.pop()
+                elif not depth and tok.string in ")]":
+                    self._stack.append(tok)  # the closing bracket of the subprocess form itself
+                    break
+            if last is not None and tok.start[0] > last.end[0] and not string.endswith("\n"):
+                # a backslash continuation has no token of its own
+                string += last.line.split("\n")[-2 if last.line.endswith("\n") else -1][last.end[1] :] + "\n"
+            if last is None:
+                start = tok.start
+            string += tok.string
+            last = tok
+            end = tok.end
+        self._proc_macro = False
         return TokenInfo(Token.MACRO_PARAM, string, start, end, line)
 
     def consume_with_macro_params(self) -> TokenInfo:  # noqa: C901
